@@ -597,7 +597,7 @@ func (f *FnVC) applyContract(ct *Contract, callee *ssa.Function, sig *types.Sign
 		if e.Tag == "local" {
 			continue // proved for the callee, not handed to callers (keeps callers' queries small)
 		}
-		if e.Tag == "assumed" && e.Prop != "" && f.g.curProp != "" && e.Prop != f.g.curProp {
+		if e.Tag == "assumed" && e.Prop != "" && f.g.curProp != "" && !propListed(e.Prop, f.g.curProp) {
 			continue // an assumption made for another property's check: not needed here (fewer facts is always sound)
 		}
 		f.gfact(f.trBool(post, e.E))
